@@ -65,9 +65,11 @@ def ordering_table(t):
 
     def is_mt(v):
         return any(VAL[s][0] == 'sym' and VAL[s][1] == 'app' and VAL[s][2] in ('filetime::FileTime::from_last_modification_time', 'std::fs::Metadata::modified') for s in values.subs(v))
-    if not (t[0] == 'sym' and t[1] == 'cmp'):
+    from rules.common import norm_cmp
+    nc = norm_cmp(t)
+    if nc is None:
         return None, None
-    op, a, b = t[2], t[3], t[4]
+    op, a, b = nc
     rel = {'Lt': lambda o: o < 0, 'Le': lambda o: o <= 0, 'Gt': lambda o: o > 0, 'Ge': lambda o: o >= 0, 'Eq': lambda o: o == 0, 'Ne': lambda o: o != 0}[op]
     if is_at(a) and is_mt(b) and not is_mt(a) and not is_at(b):
         tab = {o: rel(o) for o in (-1, 0, 1)}
